@@ -28,6 +28,7 @@ type bref struct {
 	field     int
 	val       ssa.Value // a plain integer value
 	zero      bool      // the constant 0 (upper(v, zero) = c means v <= c)
+	raw       bool      // with fieldBase: the integer field base.field itself (not its length)
 }
 
 func (r bref) String() string {
@@ -319,14 +320,25 @@ func refOfValue(v ssa.Value) bref {
 	if a, ok := lenArg(v); ok {
 		return refOfSlice(a)
 	}
+	// an integer field read: all reads of the field denote the same quantity while the function does not store it
+	if un, ok := v.(*ssa.UnOp); ok && un.Op == token.MUL {
+		if fa, ok := un.X.(*ssa.FieldAddr); ok {
+			if bt, isB := un.Type().Underlying().(*types.Basic); isB && bt.Info()&types.IsInteger != 0 {
+				return bref{fieldBase: fa.X, field: fa.Field, raw: true, val: v}
+			}
+		}
+	}
 	return bref{val: v}
 }
 
 func (p *bprover) sameRef(a, b bref) bool {
 	switch {
 	case a.fieldBase != nil && b.fieldBase != nil:
-		if a.field != b.field {
+		if a.field != b.field || a.raw != b.raw {
 			return false
+		}
+		if a.raw && a.val != nil && a.val == b.val {
+			return true
 		}
 		same := samePtr(a.fieldBase, b.fieldBase)
 		if !same {
@@ -490,8 +502,14 @@ func (p *bprover) lowerRef(r bref, at bpoint) (int64, bool) {
 	if r.zero {
 		return 0, true
 	}
-	if r.val != nil {
+	if r.val != nil && !r.raw {
 		return p.lower(r.val, at, map[ssa.Value]bool{})
+	}
+	if r.raw {
+		if r.val != nil {
+			return p.lower(r.val, at, map[ssa.Value]bool{})
+		}
+		return 0, false
 	}
 	best := int64(0)
 	// strings.HasPrefix / HasSuffix(s, "const") on a dominating true edge: len(s) >= len("const")
@@ -684,6 +702,10 @@ func (p *bprover) upper1(v ssa.Value, r bref, at bpoint, seen map[ssa.Value]bool
 				upd(0)
 			}
 		} else if c, ok := p.summaryUpper(x, r, at); ok {
+			upd(c)
+		}
+	case *ssa.Call:
+		if c, ok := p.callUpper(x, r, at); ok {
 			upd(c)
 		}
 	}
@@ -964,4 +986,75 @@ func linForms(v ssa.Value, depth int) []linForm {
 		}
 	}
 	return out
+}
+
+// callUpper: v = h(args…) with a single integer result; the reference is a field of one of the arguments (e.g. the
+// receiver's localCount): every return of h is bounded relative to the same field of the corresponding parameter
+func (p *bprover) callUpper(call *ssa.Call, r bref, at bpoint) (int64, bool) {
+	h := call.Call.StaticCallee()
+	if h == nil || h.Blocks == nil || h == p.fn || r.fieldBase == nil || h.Signature.Results().Len() != 1 {
+		return 0, false
+	}
+	idx := -1
+	for i, a := range call.Call.Args {
+		if samePtr(a, r.fieldBase) && i < len(h.Params) {
+			idx = i
+		}
+	}
+	if idx < 0 {
+		return 0, false
+	}
+	q := newBProver(h)
+	q.budget = p.budget / 2
+	all, first := int64(0), true
+	for _, b := range h.Blocks {
+		ret, ok := b.Instrs[len(b.Instrs)-1].(*ssa.Return)
+		if !ok {
+			continue
+		}
+		// a constant answer (e.g. -1 = not found) that the caller's own tests exclude at this point does not count
+		if rb, ro := lin(retValue(ret, 0)); rb == nil {
+			if lo, okLo := p.lowerFactsOnly(call, at); okLo && ro < lo {
+				continue
+			}
+		}
+		r2 := bref{fieldBase: h.Params[idx], field: r.field, raw: r.raw}
+		c, ok := q.upper(retValue(ret, 0), r2, bpoint{b: b}, map[ssa.Value]bool{})
+		if !ok {
+			return 0, false
+		}
+		if first || c > all {
+			all, first = c, false
+		}
+	}
+	return all, !first
+}
+
+// lowerFactsOnly: the greatest constant c with v >= c that follows from dominating comparisons of v with constants
+func (p *bprover) lowerFactsOnly(v ssa.Value, at bpoint) (int64, bool) {
+	best, have := int64(0), false
+	for _, f := range p.facts {
+		if !p.holdsAt(f, at) {
+			continue
+		}
+		o, op, other, ok := orient(f, v)
+		if !ok {
+			continue
+		}
+		ob, oo := lin(other)
+		if ob != nil {
+			continue
+		}
+		switch op {
+		case token.GEQ, token.EQL:
+			if c := oo - o; !have || c > best {
+				best, have = c, true
+			}
+		case token.GTR:
+			if c := oo - o + 1; !have || c > best {
+				best, have = c, true
+			}
+		}
+	}
+	return best, have
 }
